@@ -16,6 +16,10 @@ NearestImage(V, pbc).search(d0) is an exhaustive search with a *proven* finite r
   perpendicular widths.  To keep the box small for skewed cells, B is first replaced by U.B with U an
   integer matrix of determinant +-1 (pairwise size reduction; same lattice, asserted), which does not
   affect the proof.  L0 comes from rounding t in the reduced basis.
+
+Length unit: everything here is scale free - the integer ranges are computed from dimensionless quantities (t, rad*|G_i|),
+every absolute margin is EPS times the size of the inputs, tie thresholds are relative unless the caller passes tie_abs
+(in the caller's unit).  C02 runs it on cells from 1e-12 to 1e+8 in size.
 """
 import itertools
 
